@@ -298,7 +298,8 @@ def _full_skeleton(f, subst=()):
     out = []
     def nz(t):
         for a, b in subst:
-            t = t.replace(a, b)
+            # a compiled pattern is applied as a regular expression, a string literally
+            t = a.sub(b, t) if hasattr(a, "sub") else t.replace(a, b)
         return re.sub(r"\s+", " ", t)
     for n in g.nodes:
         if n.id not in live:
@@ -324,7 +325,8 @@ def rule_getelem_twins(P):
     a = P.find(M + "dd_edge::getElemInt")[0]
     b = P.find(M + "dd_edge::getElemLong")[0]
     R.functions |= {a["inst"], b["inst"]}
-    sa = _full_skeleton(a, subst=(("int(", "long("), ("operator int", "operator long"), ("(int)", "(long)")))
+    # only conversions *of edge values* widen; a cast of the level counter (int(k)) is the same in both twins
+    sa = _full_skeleton(a, subst=((re.compile(r"\bint\((?=[^()]*edgeval)"), "long("), ("operator int", "operator long"), ("(int)", "(long)")))
     sb = _full_skeleton(b)
     if len(sa) < 20:
         raise AnalysisBroken("sibling.getelem-twins: skeleton of getElemInt has only %d events" % len(sa))
